@@ -128,11 +128,12 @@ def run(ctx):
                 for label, ck in (('direct', checker),) + ((('loaded', loaded),) if pi % 5 == 0 else ()) + \
                         ((('loaded-without-symbols', nosym),) if (pi % 5 == 1 and nosym is not None) else ()):
                     try:
+                        pa, ka = (lvs.name_arg(rng, p2), lvs.name_arg(rng, k2)) if pi % 3 == 0 else (p2 if p2 else '/', k2 if k2 else '/')
                         if pi % 20 == 0:
                             with monitors.Steps(limit=budget):
-                                got = ck.check(p2 if p2 else '/', k2 if k2 else '/')
+                                got = ck.check(pa, ka)
                         else:
-                            got = ck.check(p2 if p2 else '/', k2 if k2 else '/')
+                            got = ck.check(pa, ka)
                     except monitors.BudgetExceeded:
                         ctx.report('check-step-budget', f'check() exceeded {budget} interpreter events', wn)
                         continue
